@@ -9,6 +9,8 @@ import (
 	"github.com/antonmedv/expr"
 	"pgregory.net/rapid"
 
+	dupa "verifharness/checks/dupa"
+	dupb "verifharness/checks/dupb"
 	"verifharness/core"
 )
 
@@ -43,7 +45,10 @@ type C17Env struct {
 	Flag    bool
 	NotFn   int
 	Fld     func(C17V, C17V) C17V // overload candidate held in a field
-	log     *[]string
+	// two values of two DIFFERENT types that print alike ("dup.V"); only the first has an overload of ==
+	LA  dupa.V
+	LB  dupb.V
+	log *[]string
 }
 
 func (e C17Env) lg(f string, a ...interface{}) {
@@ -82,6 +87,9 @@ func (e C17Env) EqAny(a, b interface{}) bool {
 	e.lg("EqAny(%v,%v)", a, b)
 	return (a == nil) != (b == nil)
 }
+// EqLA overloads == on the first of the two types called dup.V (never what the built-in == answers)
+func (e C17Env) EqLA(a, b dupa.V) bool { e.lg("EqLA(%d,%d)", a.N, b.N); return a.N != b.N }
+
 // ModV overloads % on two ints - operands the built-in % accepts too - with a result of another type
 func (e C17Env) ModV(a, b int) C17V { e.lg("ModV(%d,%d)", a, b); return C17V{a*10 + b} }
 func (e C17Env) LtV(a, b C17V) bool { e.lg("LtV(%d,%d)", a.N, b.N); return a.N < b.N }
@@ -112,7 +120,7 @@ var c17Cands = map[string][]c17Cand{
 	"%":  {{"ModV", c17I, c17I}},
 	"*":  {{"MulVI", c17V, c17I}},
 	"<":  {{"LtV", c17V, c17V}},
-	"==": {{"EqIS", c17I, c17S}, {"EqTS", c17T, c17S}, {"EqStr", "Stringer", c17S}, {"EqStrR", c17S, "Stringer"}, {"EqStrs", "Stringer", "Stringer"}, {"EqAny", "any", "any"}},
+	"==": {{"EqIS", c17I, c17S}, {"EqTS", c17T, c17S}, {"EqStr", "Stringer", c17S}, {"EqStrR", c17S, "Stringer"}, {"EqStrs", "Stringer", "Stringer"}, {"EqAny", "any", "any"}, {"EqLA", "LA", "LA"}},
 }
 
 // c17Fits: the operand type is the parameter type, or the parameter is an interface the operand implements
@@ -162,6 +170,8 @@ func (g *c17Gen) gen(ty string, d int) *c17X {
 		switch ty {
 		case "nil":
 			return &c17X{K: "leaf", Text: "nil", Ty: ty}
+		case "LA", "LB":
+			return &c17X{K: "leaf", Text: ty, Ty: ty}
 		case c17V:
 			return &c17X{K: "leaf", Text: []string{"A", "B", "C", "MV.k", "Vs[0]"}[g.pick(5, "vleaf")], Ty: ty}
 		case c17T:
@@ -176,7 +186,7 @@ func (g *c17Gen) gen(ty string, d int) *c17X {
 		}
 		return &c17X{K: "leaf", Text: []string{"Flag", "true", "false"}[g.pick(3, "bleaf")], Ty: ty}
 	}
-	if d <= 0 || ty == "nil" {
+	if d <= 0 || ty == "nil" || ty == "LA" || ty == "LB" {
 		return leaf()
 	}
 	bin := func(op, l, r string) *c17X { return &c17X{K: "bin", Op: op, Ty: ty, A: []*c17X{g.gen(l, d-1), g.gen(r, d-1)}} }
@@ -233,7 +243,11 @@ func (g *c17Gen) gen(ty string, d int) *c17X {
 		return leaf()
 	}
 	// bool
-	switch g.pick(15, "bk") {
+	switch g.pick(17, "bk") {
+	case 15:
+		return bin("==", "LA", "LA") // overloaded when EqLA is in the table
+	case 16:
+		return bin("==", "LB", "LB") // always the built-in ==: the type has the same printed name, but is another type
 	case 13:
 		return bin("==", []string{c17T, c17V, c17S, c17I}[g.pick(4, "nill")], "nil")
 	case 14:
@@ -362,6 +376,7 @@ func (c *c17Case) env(log *[]string) C17Env {
 		e.Vs = append(e.Vs, C17V{n})
 	}
 	e.MV = map[string]C17V{"k": {c.Env.A + 1}}
+	e.LA, e.LB = dupa.V{N: c.Env.I}, dupb.V{N: c.Env.J}
 	e.Fld = func(a, b C17V) C17V { e.lg("Fld(%d,%d)", a.N, b.N); return C17V{a.N + b.N + 7} }
 	return e
 }
